@@ -25,6 +25,13 @@ func HashName(label string, ha uint8, iter uint16, salt string) string {
 		return ""
 	}
 	name = name[:off]
+	// A letter may also be written as a \DDD escape, which ToLower leaves alone:
+	// fold the octets too. Length octets (at most 63) are below 'A'.
+	for i, c := range name {
+		if 'A' <= c && c <= 'Z' {
+			name[i] = c + ('a' - 'A')
+		}
+	}
 
 	s := sha1.New()
 	// k = 0
